@@ -50,6 +50,44 @@ theorem remove_ordered (ms : Ranges) (len : Nat) (h : Chain len 0 ms) : Ordered 
 theorem tiles_ordered (rs : Ranges) (len from_ : Nat) (h : Tiles len from_ rs) : Ordered len from_ rs :=
   Kitoken.Proofs.Split.tiles_ordered rs len from_ h
 
+/-! ### tilings reconstruct the text -/
+
+/-- The bytes a list of ranges selects from a text, in order. -/
+def selected (text : Bytes) (rs : Ranges) : Bytes :=
+  rs.flatMap (fun r => (text.drop r.1).take (r.2 - r.1))
+
+theorem tiles_select_from (text : Bytes) (rs : Ranges) (from_ : Nat) (h : Tiles text.length from_ rs) :
+    selected text rs = text.drop from_ := by
+  induction rs generalizing from_ with
+  | nil =>
+    simp only [Tiles] at h
+    subst h; simp [selected]
+  | cons r rest ih =>
+    obtain ⟨s, e⟩ := r
+    simp only [Tiles] at h
+    obtain ⟨hs, hse, hrest⟩ := h
+    subst hs
+    have := ih e hrest
+    simp only [selected, List.flatMap_cons] at this ⊢
+    rw [this]
+    have he : e = s + (e - s) := by omega
+    conv => rhs; rw [← List.take_append_drop (e - s) (List.drop s text)]
+    rw [List.drop_drop]
+    congr 2
+
+/-- A tiling loses and duplicates nothing: the selected bytes are the text. -/
+theorem tiles_reconstruct (text : Bytes) (rs : Ranges) (h : Tiles text.length 0 rs) : selected text rs = text := by
+  simpa using tiles_select_from text rs 0 h
+/-- Hence the four keeping behaviours (Isolate, Merge, MergeLeft, MergeRight) lose and duplicate no byte
+    of the text, for every well-formed match list. -/
+theorem keeping_behaviours_reconstruct (text : Bytes) (ms : Ranges) (h : Chain text.length 0 ms) :
+    selected text (expand ms text.length) = text ∧ selected text (expand (merge ms) text.length) = text ∧
+    selected text (mergeLeft ms text.length) = text ∧ selected text (mergeRight ms text.length) = text :=
+  ⟨tiles_reconstruct _ _ (isolate_tiles ms _ h), tiles_reconstruct _ _ (merge_tiles ms _ h),
+   tiles_reconstruct _ _ (mergeLeft_tiles ms _ h), tiles_reconstruct _ _ (mergeRight_tiles ms _ h)⟩
+
+example : selected [1, 2, 3, 4, 5] [(0, 2), (2, 2), (2, 5)] = [1, 2, 3, 4, 5] := by decide
+
 /- Original statement, FALSE as written: for an empty text `Split.split` answers `some []` without
    consulting the pattern stage, so with `ext.findIter = fun _ _ => none`, `p = .regex ""`, `text = []`
    the hypothesis holds (`out = []`) while `splitPattern ext text p = none`.
